@@ -103,7 +103,9 @@ def concretise(f, k, rng, variant=0):
     if c == "exp":
         p = f["p"]
         if k["up"]:
-            mant = "9." + "9" * 16
+            # all nines: either beyond every printed digit (carries at full precision) or exactly as many as are printed
+            # (no carry at full precision, a carry as soon as one decimal is dropped to make the value fit)
+            mant = "9." + "9" * (16 if variant % 2 == 0 else max(p, 1))
             if k["ed"] == 2 and not k["eneg"]:
                 e = 99
             elif k["ed"] == 3 and k["eneg"]:
@@ -132,7 +134,7 @@ def concretise(f, k, rng, variant=0):
     if c == "fix":
         p, n = f["p"], k["id"]
         if k["up"]:
-            s = "9" * n + "." + "9" * (p + 4)
+            s = "9" * n + "." + "9" * (p + 4 if variant % 2 == 0 else max(p, 1))
         else:
             ip = (rng.choice("12345678") + "".join(rng.choice("0123456789") for _ in range(n - 1)))
             s = ip + "." + "".join(rng.choice("0123456789") for _ in range(p)) + rng.choice("01234")
